@@ -752,14 +752,19 @@ def real_ranks(suites):
 
 
 def model_tree(tree):
-    """the model's tree with dense sibling ranks"""
+    """the model's tree with dense sibling ranks.  A test's rank is the key [rank, sub] of `Model/Expand.lean` (the loaded rank
+    `md.rank + idx / (idx + 1)` of a parametrized variant, fix N5, as a pair ordered lexicographically): ranks are compared by
+    their ORDER among the siblings, on both sides"""
+    def key(r):
+        return tuple(r) if isinstance(r, list) else r
+
     def dense(nodes):
-        order = sorted({n["rank"] for n in nodes})
+        order = sorted({key(n["rank"]) for n in nodes})
         return {r: i + 1 for i, r in enumerate(order)}
 
     def suite(s, dr):
         dt, ds = dense(s["tests"]), dense(s["suites"])
-        return dict(s, rank=dr[s["rank"]], tests=[dict(t, rank=dt[t["rank"]]) for t in s["tests"]],
+        return dict(s, rank=dr[key(s["rank"])], tests=[dict(t, rank=dt[key(t["rank"])]) for t in s["tests"]],
                     suites=[suite(x, ds) for x in s["suites"]])
     dr = dense(tree)
     return [suite(s, dr) for s in tree]
